@@ -154,8 +154,8 @@ class RangeMonitor(object):
         def items_ordered_and_limits_consistent(self):
             ctx.count("L2.range-invariant.evaluated")
             items = getattr(self, "_items", None)
-            if not items:
-                return True
+            if not items or not hasattr(self, "_upper_limit"):
+                return True  # empty range, or still inside the constructor (properties are read there)
             try:
                 ok = all(lo is None or hi is None or lo <= hi for lo, hi in items)
                 lowers = [lo for lo, _ in items]
